@@ -274,6 +274,11 @@ def run_disk(case, ctx, res):
             text += "\n"
             if not text.strip():
                 continue
+            if j % 5 == 4 and any(t in "SE" for t in seq):
+                # a licence tag outside every block that cannot be parsed: the file contributes nothing - and certainly
+                # nothing of what its ignore blocks enclose
+                text = ("# " if commented else "") + "SPDX-License-Identifier: MIT AND (0BSD OR)\n" + text  # first line: before any marker
+                exp = {"lic": set(), "cop": set(), "con": set()}
             (root / f"f{j}.py").write_text(text)
             expected[f"f{j}.py"] = (exp, text, seq)
         r = run_cli(["--no-multiprocessing", "--root", str(root), "lint", "--json"], cwd=str(root))
